@@ -16,6 +16,8 @@ CORPORA = {
                           family="stream", trace="StreamTrace.tla", tracecfg="StreamTrace.cfg"),
     "stream_reject": dict(gen="MCStream.tla", cfg={"quick": "stream_reject_quick.cfg", "thorough": "stream_reject_thorough.cfg"},
                           family="stream", trace="StreamTrace.tla", tracecfg="StreamTrace.cfg"),
+    "stream_hostile": dict(gen="MCStream.tla", cfg={"quick": "stream_hostile_quick.cfg", "thorough": "stream_hostile_thorough.cfg"},
+                           family="stream", trace="StreamTrace.tla", tracecfg="StreamTrace.cfg"),
     "stream_headers": dict(gen="MCStream.tla", cfg={"quick": "stream_headers_quick.cfg", "thorough": "stream_headers_thorough.cfg"},
                            family="stream", trace="StreamTrace.tla", tracecfg="StreamTrace.cfg"),
 }
@@ -24,10 +26,15 @@ CORPORA = {
 # Properties: which corpora decide them and which oracle conjuncts (tags) are theirs.
 # ---------------------------------------------------------------------------
 PROPS = {
-    "C01": dict(corpora=["stream_matrix"], prefix="C01."),
-    "C02": dict(corpora=["stream_matrix"], prefix="C02."),
-    "C03": dict(corpora=["stream_matrix"], prefix="C03."),
-    "C13": dict(corpora=["stream_matrix"], prefix="C13."),
+    "C01": dict(corpora=["stream_matrix", "stream_faults"], prefix="C01."),
+    "C02": dict(corpora=["stream_matrix", "stream_headers"], prefix="C02."),
+    "C03": dict(corpora=["stream_matrix", "stream_errors", "stream_faults", "stream_hostile"], prefix="C03."),
+    "C04": dict(corpora=["stream_errors"], prefix="C04."),
+    "C05": dict(corpora=["stream_headers"], prefix="C05."),
+    "C09": dict(corpora=["stream_faults"], prefix="C09."),
+    "C11": dict(corpora=["stream_hostile", "stream_faults", "stream_errors", "stream_reject"], prefix="C11."),
+    "C13": dict(corpora=["stream_matrix", "stream_reject"], prefix="C13."),
+    "C18": dict(corpora=["stream_reject", "stream_matrix", "stream_faults"], prefix="C18."),
 }
 
 ASSUMPTIONS = [
@@ -51,7 +58,10 @@ def scenario_class(o):
             d["form"] if d else "-", d["codec"] if d else "-", d["enc"] if d else "-",
             len(cl.get("frames", [])), len(hd.get("frames", [])), hd.get("comp"), hd.get("end", {}).get("code"),
             hd.get("end", {}).get("how"), cl.get("rej"), cl.get("cut"), hd.get("fault"),
-            (o.get("cl") or {}).get("end", {}).get("code"))
+            (o.get("cl") or {}).get("end", {}).get("code"),
+            tuple(cl.get("hdrs", [])), tuple(hd.get("hdrs", [])), tuple(hd.get("end", {}).get("trl", [])), hd.get("end", {}).get("style"),
+            hd.get("clen"), hd.get("ct"), hd.get("exit"), hd.get("status"), cl.get("clen"),
+            tuple(f.get("fault") for f in cl.get("frames", [])), tuple(f.get("fault") for f in hd.get("frames", [])))
 
 
 def nontrivial(o):
@@ -155,6 +165,21 @@ def check(pid, tier, seed, work, t0):
         rc = 1
     if len(violations) > 25:
         print("... and %d more rejected traces" % (len(violations) - 25))
+    if violations:
+        with open(os.path.join(work, "violations.json"), "w") as vf:
+            json.dump([[n_, s_, t_] for n_, s_, t_, _ in violations], vf)
+        hist = collections.Counter()
+        for name, sid, tags, o in violations:
+            s = (o or {}).get("scn") or {}
+            d = (o or {}).get("disp") or []
+            for t in tags:
+                hist[(t, s.get("cl", {}).get("form"), d[0]["form"] if d else "-", s.get("cl", {}).get("rej", ""),
+                      s.get("hd", {}).get("end", {}).get("how"), s.get("hd", {}).get("fault", ""), s.get("cl", {}).get("cut", ""),
+                      "|".join(f.get("fault", "") for f in s.get("cl", {}).get("frames", [])) + ">" +
+                      "|".join(f.get("fault", "") for f in s.get("hd", {}).get("frames", [])),
+                      s.get("cl", {}).get("clen", "") + ">" + s.get("hd", {}).get("clen", ""))] += 1
+        for k, v in hist.most_common(40):
+            log("  %5d %s" % (v, k))
     cov = dict(states=states, transitions=transitions, traces_validated_against_impl=traces,
                samples=samples, evaluations=evaluations, distinct_nontrivial=len(classes),
                rule="scenarios are the terminal states of the TLC exploration of the family's specification; a case is "
